@@ -1,1 +1,219 @@
 // Suites that need access to items private to this module (feature ipa-verif, test builds only).
+//
+// This file is `include!`d as `helpers::buffers::ipa_verif_hook`; `super::circular` (private to
+// `helpers::buffers`) is visible from here.
+
+// ------------------------------------------------------------------------------------------------
+// C14 (a): CircularBuf as a FIFO byte queue.   Request:  c14.circ <cap> <ws> <rs> <op,op,…>
+//   ops: w<hex> = next().write(bytes) | t = take() | c = close()
+//   response: `<out>|<len>|<can_read>|<can_write>|<closed>` per op, `;`-separated, where <out> is
+//   `ok` or the hex of the bytes returned by take (`-` = none); the trace ends with
+//   `panic:<tag>` at the first panic.
+// ------------------------------------------------------------------------------------------------
+mod c14_circ {
+    use super::super::circular::CircularBuf;
+    use crate::ipa_verif::proto::*;
+
+    /// Panic messages are reduced to a stable tag (a substring of the Rust message).
+    pub fn c14_panic_tag(msg: &str) -> String {
+        const TAGS: &[&str] = &[
+            "must all be greater than zero",
+            "write size must divide capacity",
+            "write size must divide read_size",
+            "Already closed",
+            "Writing to a closed buffer",
+            "Not enough space for the next write",
+            "Expect to keep messages of size",
+        ];
+        for t in TAGS {
+            if msg.contains(t) {
+                return format!("panic:{t}");
+            }
+        }
+        msg.to_string()
+    }
+
+    fn b(x: bool) -> &'static str {
+        if x { "1" } else { "0" }
+    }
+
+    fn obs(buf: &CircularBuf) -> String {
+        format!("{}|{}|{}|{}", buf.len(), b(buf.can_read()), b(buf.can_write()), b(buf.is_closed()))
+    }
+
+    pub fn exec(req: &str) -> String {
+        let t: Vec<&str> = req.split(' ').collect();
+        assert_eq!(t[0], "c14.circ");
+        let cap: usize = t[1].parse().unwrap();
+        let ws: usize = t[2].parse().unwrap();
+        let rs: usize = t[3].parse().unwrap();
+        let mut buf = match guarded(|| CircularBuf::new(cap, ws, rs)) {
+            Ok(b) => b,
+            Err(p) => return c14_panic_tag(&p),
+        };
+        let mut out: Vec<String> = vec![];
+        if t[4] != "-" {
+            for op in t[4].split(',') {
+                let r = match op.as_bytes()[0] {
+                    b'w' => {
+                        let m = unhex(if op.len() == 1 { "-" } else { &op[1..] });
+                        guarded(|| {
+                            buf.next().write(m.as_slice());
+                            "ok".to_string()
+                        })
+                    }
+                    b't' => guarded(|| hex(&buf.take())),
+                    b'c' => guarded(|| {
+                        buf.close();
+                        "ok".to_string()
+                    }),
+                    _ => panic!("harness: bad op {op}"),
+                };
+                match r {
+                    Ok(s) => out.push(format!("{s}|{}", obs(&buf))),
+                    Err(p) => {
+                        out.push(c14_panic_tag(&p));
+                        break;
+                    }
+                }
+            }
+        }
+        if out.is_empty() { "-".into() } else { out.join(";") }
+    }
+
+    /// Generator-side bookkeeping (only used to prune sequences after a rejected operation).
+    #[derive(Clone)]
+    struct Track {
+        len: usize,
+        closed: bool,
+        ctr: usize,
+    }
+
+    fn msg(tr: &mut Track, n: usize) -> String {
+        let v: Vec<u8> = (0..n)
+            .map(|_| {
+                tr.ctr += 1;
+                (tr.ctr % 251) as u8
+            })
+            .collect();
+        format!("w{}", if v.is_empty() { String::new() } else { hex(&v) })
+    }
+
+    /// All operation sequences up to `depth` (a sequence stops after an op the reference rejects).
+    fn dfs(cap: usize, ws: usize, rs: usize, depth: usize, tr: Track, cur: &mut Vec<String>, out: &mut Vec<String>) {
+        if depth == 0 {
+            out.push(format!("c14.circ {cap} {ws} {rs} {}", cur.join(",")));
+            return;
+        }
+        for op in 0..3 {
+            let mut t2 = tr.clone();
+            let (s, rejected) = match op {
+                0 => {
+                    let rej = t2.closed || cap - t2.len < ws;
+                    let s = msg(&mut t2, ws);
+                    t2.len += ws;
+                    (s, rej)
+                }
+                1 => {
+                    if (t2.closed && t2.len > 0) || t2.len >= rs {
+                        t2.len -= rs.min(t2.len);
+                    }
+                    ("t".to_string(), false)
+                }
+                _ => {
+                    let rej = t2.closed;
+                    t2.closed = true;
+                    ("c".to_string(), rej)
+                }
+            };
+            cur.push(s);
+            if rejected {
+                out.push(format!("c14.circ {cap} {ws} {rs} {}", cur.join(",")));
+            } else {
+                dfs(cap, ws, rs, depth - 1, t2, cur, out);
+            }
+            cur.pop();
+        }
+    }
+
+    pub fn generate(rng: &mut Rng, thorough: bool) -> Vec<String> {
+        let mut out = vec![];
+        // constructor: boundary and rejected configurations
+        for (c, w, r) in [
+            (0, 1, 1), (1, 0, 1), (1, 1, 0), (0, 0, 0), (4, 3, 3), (6, 4, 4), (6, 2, 3), (6, 3, 2), (4, 2, 1),
+            (1, 1, 1), (2, 2, 2), (2, 1, 4), (4, 2, 8), (3, 3, 3),
+        ] {
+            out.push(format!("c14.circ {c} {w} {r} -"));
+        }
+        // exhaustive to depth over a grid (read_size ∤ capacity, read_size > capacity included)
+        let grid: &[(usize, usize, usize)] = &[
+            (1, 1, 1), (2, 1, 1), (2, 1, 2), (3, 1, 2), (4, 2, 2), (4, 1, 3), (6, 2, 4), (6, 3, 3), (6, 3, 6),
+            (8, 2, 4), (5, 1, 2), (3, 1, 3), (4, 2, 8), (2, 2, 4), (9, 3, 6),
+        ];
+        let depth = if thorough { 12 } else { 10 };
+        for &(c, w, r) in grid {
+            dfs(c, w, r, depth, Track { len: 0, closed: false, ctr: 0 }, &mut vec![], &mut out);
+        }
+        // random long walks over larger configurations
+        let n = if thorough { 6000 } else { 600 };
+        for k in 0..n {
+            let ws = *rng.pick(&[1usize, 1, 2, 3, 4, 5, 8, 16]);
+            let cap = ws * (1 + rng.usize_below(if k % 3 == 0 { 4 } else { 24 }));
+            let rs = if rng.below(8) == 0 {
+                ws * (1 + rng.usize_below(2 * cap / ws + 1))
+            } else {
+                ws * (1 + rng.usize_below(cap / ws))
+            };
+            let steps = 10 + rng.usize_below(if thorough { 400 } else { 120 });
+            let mut tr = Track { len: 0, closed: false, ctr: rng.usize_below(251) };
+            let mut ops = vec![];
+            // phases: mostly-write, mostly-read alternate so the cursors wrap many times
+            let mut bias = 70;
+            for i in 0..steps {
+                if i % 17 == 0 {
+                    bias = *rng.pick(&[20u64, 50, 80, 95]);
+                }
+                let x = rng.below(100);
+                if x < bias {
+                    let wrong = rng.below(200) == 0;
+                    let n = if wrong { ws + 1 - 2 * rng.usize_below(2).min(ws) } else { ws };
+                    let rej = tr.closed || cap - tr.len < ws || n != ws;
+                    ops.push(msg(&mut tr, n));
+                    if rej {
+                        if rng.below(4) == 0 {
+                            break; // keep the rejected write as the last op
+                        }
+                        ops.pop();
+                        ops.push("t".into());
+                        if (tr.closed && tr.len > 0) || tr.len >= rs {
+                            tr.len -= rs.min(tr.len);
+                        }
+                    } else {
+                        tr.len += ws;
+                    }
+                } else if x < 99 || tr.closed {
+                    ops.push("t".into());
+                    if (tr.closed && tr.len > 0) || tr.len >= rs {
+                        tr.len -= rs.min(tr.len);
+                    }
+                } else {
+                    ops.push("c".into());
+                    tr.closed = true;
+                }
+            }
+            if rng.below(3) == 0 && !tr.closed {
+                ops.push("c".into());
+                for _ in 0..(cap / rs.min(cap) + 2) {
+                    ops.push("t".into());
+                }
+            }
+            out.push(format!("c14.circ {cap} {ws} {rs} {}", ops.join(",")));
+        }
+        out
+    }
+
+    #[test]
+    fn verif_c14_circ() {
+        run_suite("c14_circ", generate, exec);
+    }
+}
